@@ -152,13 +152,15 @@ pub fn gen_case(r: &mut Rng) -> (IG, IG, Lat) {
 pub fn run(ctx: &Ctx, sh: &mut Shard) {
     // exhaustive sub-space (shard 0 only): every ordered pair of Point/Line/Triangle/Rect on a 3x3 lattice is too large
     // for quick; use 3x3 (coordinates 0..=2) for Point x {Line, Triangle, Rect} and Line x Line.
-    if ctx.shard == 0 {
+    if ctx.shard == 0 && ctx.only.is_none() {
         exhaustive_small(sh, if ctx.tier == "thorough" { 3 } else { 2 });
     }
-    let mut k = 0u64;
-    while sh.cases < ctx.budget {
+    for k in ctx.case_indices() {
+        if sh.cases >= ctx.budget {
+            break;
+        }
+        ctx.mark_case(k);
         let mut r = Rng::derive(ctx.seed, ctx.shard, k);
-        k += 1;
         let (a, b, lat) = gen_case(&mut r);
         if a.n_segments() + b.n_segments() > 90 {
             continue;
